@@ -23,14 +23,20 @@ outcome — short writes, failed writes/syncs as long as the worker thread survi
   is a journal position `m` beyond `c`, at or below the acknowledged position, such that
   the purge that made `c` obsolete is journalled below `m`; every remaining linked chunk
   file is written and durable up to `m` (or to its end); no index entry lives in `c`.
-* (c) `c08_flushed_idle_gone`: after `flush`, `workerIdle`, if the last sync had not
-  failed and nothing was postponed before: nothing is left to unlink, the linked files
-  are exactly the live chunks. `c08_no_failed_sync_clean`: that hypothesis holds for
-  every history without a `worker eio` step.
+* (c) `c08_flushed_idle_gone_always`: after `flush`, `workerIdle` (worker alive) nothing
+  is left to unlink, the linked files are exactly the live chunks — for EVERY legal
+  history, also after failed syncs: a removal postponed by a failed sync is retried after
+  every batch, and the flush's batch syncs fine in the idle run.
+  `c08_postponed_only_after_failed_sync`: along every history, removals are postponed
+  only while the last sync has failed. (`c08_flushed_idle_gone`, the older statement with
+  the hypothesis "last sync not failed, nothing postponed", is kept as a corollary;
+  `c08_no_failed_sync_clean`: that hypothesis holds for every history without a
+  `worker eio` step.)
 -/
 import RaftLogModel.Props.C03Quiet
 import RaftLogModel.Props.C08
 import RaftLogModel.Proofs.CrashQC8
+import RaftLogModel.Proofs.PostponedD14
 namespace RaftLog
 
 /-! ### (a) The remaining files -/
@@ -379,24 +385,35 @@ theorem c08_no_failed_sync_clean (cfg : Cfg) (steps : List Step)
     rw [this]; exact ⟨rfl, rfl⟩
   exact key steps _ (SysWF.fresh cfg) hfresh hsteps hne
 
+/-- **(c), invariant.** Along every history from a freshly opened store (calls, flushes,
+worker steps with any outcome, idle runs, drains — no legality assumption), while the store
+is open: chunk removals are postponed only while the last sync has failed, at every park
+point of the worker; and the request that ended the batch in hand is not a write. (As soon
+as a batch syncs fine, the postponed removals are started: `WCtx.finishBatch`.) -/
+theorem c08_postponed_only_after_failed_sync (cfg : Cfg) (steps : List Step)
+    (hs : ((Sys.fresh cfg).run steps).store ≠ none) :
+    (((Sys.fresh cfg).run steps).worker.postponed ≠ [] →
+      ((Sys.fresh cfg).run steps).worker.lastSyncFailed = true) ∧
+    ((Sys.fresh cfg).run steps).worker.pc.tailNotWriteD14 :=
+  ⟨((SysPostD14.fresh cfg).run steps hs).post, ((SysPostD14.fresh cfg).run steps hs).tail⟩
+
 /-- **(c) Once a purge has been flushed and the worker is idle, the dropped chunks are
-gone.** A legal history `steps` (it may contain purges that dropped chunks, flushes,
-worker steps with any outcome) is followed by `flush cb` and `workerIdle` (the worker
-runs, all system calls succeeding, until it is blocked on an empty queue), and the
-worker is alive at the end. Hypothesis: at the end of `steps` the last sync had not
-failed and nothing was postponed (`c08_no_failed_sync_clean`: true when no system call
-of the worker failed so far). Then nothing is left to unlink — the store's removal list
-is empty and so is the worker's — and the linked files are exactly the live chunks: no
-file of a dropped chunk remains. -/
-theorem c08_flushed_idle_gone (cfg : Cfg) (steps : List Step) (cb : Option Nat) (r : RefLog)
+gone — always.** A legal history `steps` (it may contain purges that dropped chunks,
+flushes, worker steps with any outcome, in particular failed syncs that postponed
+removals) is followed by `flush cb` and `workerIdle` (the worker runs, all system calls
+succeeding, until it is blocked on an empty queue), and the worker is alive at the end.
+No hypothesis on failed syncs or postponed removals: the flush's write request is synced
+in the idle run, and a good sync starts every postponed removal. Then nothing is left to
+unlink — the store's removal list is empty and so is the worker's — and the linked files
+are exactly the live chunks: no file of a dropped chunk remains. -/
+theorem c08_flushed_idle_gone_always (cfg : Cfg) (steps : List Step) (cb : Option Nat) (r : RefLog)
     (hsteps : ∀ st ∈ steps, st.journal = true)
     (hlegal : RefLog.run {} (stepOps steps) = some r)
     (hwf : ∀ op ∈ stepOps steps, op.WF ∧ op.small)
-    (halive : ((Sys.fresh cfg).run (steps ++ [.flush cb, .workerIdle])).worker.pc ≠ .dead)
-    (hclean : ((Sys.fresh cfg).run steps).worker.lastSyncFailed = false ∧
-      ((Sys.fresh cfg).run steps).worker.postponed = []) :
+    (halive : ((Sys.fresh cfg).run (steps ++ [.flush cb, .workerIdle])).worker.pc ≠ .dead) :
     let y := (Sys.fresh cfg).run (steps ++ [.flush cb, .workerIdle])
     ∃ s, y.store = some s ∧ s.removed = [] ∧ y.worker.toRemove = [] ∧
+      y.worker.lastSyncFailed = false ∧ y.worker.postponed = [] ∧
       y.fs.linkedIds = s.closed.map Closed.id ++ [s.openId] := by
   intro y
   have hops : stepOps (steps ++ [.flush cb, .workerIdle]) = stepOps steps := by
@@ -408,6 +425,7 @@ theorem c08_flushed_idle_gone (cfg : Cfg) (steps : List Step) (cb : Option Nat) 
     · simp only [List.mem_cons, List.not_mem_nil, or_false] at k
       rcases k with k | k <;> subst k <;> rfl
   have hwfS : SysWF ((Sys.fresh cfg).run (steps ++ [.flush cb])) := (SysWF.fresh cfg).run _
+  have hpoS : SysPostD14 ((Sys.fresh cfg).run (steps ++ [.flush cb])) := (SysPostD14.fresh cfg).run _
   have hrun : y = (((Sys.fresh cfg).run steps).step (.flush cb)).step .workerIdle := by
     simp [y, Sys.run, List.foldl_append]
   have hrun1 : (Sys.fresh cfg).run (steps ++ [.flush cb]) = ((Sys.fresh cfg).run steps).step (.flush cb) := by
@@ -421,33 +439,51 @@ theorem c08_flushed_idle_gone (cfg : Cfg) (steps : List Step) (cb : Option Nat) 
   have hd0 : ((Sys.fresh cfg).run steps).worker.pc ≠ .dead :=
     fun hdead => hd1 (Sys.step_dead _ _ rfl hdead)
   obtain ⟨⟨s0, hs0, _, _⟩, _⟩ := reach_HSys cfg steps r hsteps hlegal hwf hd0
-  -- after the flush
+  -- after the flush: a write request is in hand or queued
+  have hws := Sys.flush_willSyncD14 ((Sys.fresh cfg).run steps) cb s0 hs0 hd0
   have hfl := Sys.flush_eq ((Sys.fresh cfg).run steps) cb s0 hs0 hd0
   have hy1 : ((Sys.fresh cfg).run steps).step (.flush cb) = (((Sys.fresh cfg).run steps).flush cb).2.1 := rfl
   rw [hfl] at hy1
-  generalize hY1 : ((Sys.fresh cfg).run steps).step (.flush cb) = y1 at hy1 hd1 hrun hrun1
+  generalize hY1 : ((Sys.fresh cfg).run steps).step (.flush cb) = y1 at hy1 hd1 hrun hrun1 hws
   have hs1 : y1.store = some (s0.flush cb).1 := by rw [hy1]
-  have hclean1 : WorkerCleanC8s y1.worker := by
-    rw [hy1]
-    obtain ⟨k3, k4⟩ := settle_clean_C8s (((Sys.fresh cfg).run steps).worker.push (effQ (s0.flush cb).2))
-    exact ⟨by rw [k3]; exact hclean.1, by rw [k4]; exact hclean.2⟩
   have hwf1 : SysWF y1 := by rw [← hrun1]; exact hwfS
+  have hpo1 : PostponedOnlyAfterFailedSyncD14 y1.worker := by
+    have := hpoS
+    rw [hrun1] at this
+    exact this (by rw [hs1]; simp)
   obtain ⟨hw1, ht1⟩ := hwf1 (by rw [hs1]; simp)
   -- the worker runs until it is quiet
   have hyw : y = y1.workerIdle.1 := hrun
   have hd2 : y1.workerIdle.1.worker.pc ≠ .dead := by rw [← hyw]; exact halive
   simp only [Sys.workerIdle, hs1] at hyw hd2
   have hq := WCtx.runQuiet_fuel_quiet { w := y1.worker, fs := y1.fs, cache := (s0.flush cb).1.cache } ht1
-  have hcl := runQuiet_clean_C8s y1.worker.fuel
-    { w := y1.worker, fs := y1.fs, cache := (s0.flush cb).1.cache } hw1 hclean1
+  have hcl := WCtx.runQuiet_cleanD14 y1.worker.fuel
+    { w := y1.worker, fs := y1.fs, cache := (s0.flush cb).1.cache } hw1 hpo1 (.inl hws) hq
   have htr := toRemove_of_quiet_C8s hq hd2 hcl.2
   have hstore : y.store = some { (s0.flush cb).1 with cache :=
       (WCtx.runQuiet y1.worker.fuel { w := y1.worker, fs := y1.fs, cache := (s0.flush cb).1.cache }).cache } := by
     rw [hyw]
   have hworker : y.worker.toRemove = [] := by rw [hyw]; exact htr
-  refine ⟨_, hstore, rfl, hworker, ?_⟩
+  refine ⟨_, hstore, rfl, hworker, by rw [hyw]; exact hcl.1, by rw [hyw]; exact hcl.2, ?_⟩
   exact c03_quiet_linked cfg (steps ++ [.flush cb, .workerIdle]) r _ hsteps2 (by rw [hops]; exact hlegal)
     (by rw [hops]; exact hwf) halive hstore rfl hworker
+
+/-- **(c), the older statement** (hypothesis: at the end of `steps` the last sync had not
+failed and nothing was postponed; `c08_no_failed_sync_clean`). The hypothesis is no longer
+needed: a corollary of `c08_flushed_idle_gone_always`. -/
+theorem c08_flushed_idle_gone (cfg : Cfg) (steps : List Step) (cb : Option Nat) (r : RefLog)
+    (hsteps : ∀ st ∈ steps, st.journal = true)
+    (hlegal : RefLog.run {} (stepOps steps) = some r)
+    (hwf : ∀ op ∈ stepOps steps, op.WF ∧ op.small)
+    (halive : ((Sys.fresh cfg).run (steps ++ [.flush cb, .workerIdle])).worker.pc ≠ .dead)
+    (_hclean : ((Sys.fresh cfg).run steps).worker.lastSyncFailed = false ∧
+      ((Sys.fresh cfg).run steps).worker.postponed = []) :
+    let y := (Sys.fresh cfg).run (steps ++ [.flush cb, .workerIdle])
+    ∃ s, y.store = some s ∧ s.removed = [] ∧ y.worker.toRemove = [] ∧
+      y.fs.linkedIds = s.closed.map Closed.id ++ [s.openId] := by
+  intro y
+  obtain ⟨s, h1, h2, h3, _, _, h6⟩ := c08_flushed_idle_gone_always cfg steps cb r hsteps hlegal hwf halive
+  exact ⟨s, h1, h2, h3, h6⟩
 
 /-! ### (d) Non-vacuity -/
 
@@ -511,5 +547,44 @@ example :
     ((Sys.fresh { maxRecords := 5 }).run (c03QuietExample.take 6)).worker.toRemove = [] := by
   refine ⟨by decide +kernel, by decide +kernel, by decide +kernel, by decide +kernel, by decide +kernel,
     by decide +kernel, by decide +kernel, by decide +kernel, by decide +kernel⟩
+
+/-- `c08_flushed_idle_gone_always` after a FAILED sync (chunks of two records): three
+appends, flush, idle, `purge (1,1)` drops the chunks 0 and 51, flush, five good worker
+steps and the `fdatasync` in front of the removal request fails — the removal is postponed
+(`postponed = [0, 51]`, `lastSyncFailed = true`, all five files still linked), so the
+hypothesis of the older `c08_flushed_idle_gone` does not hold. Then `flush`, `workerIdle`:
+the flush's batch syncs fine, the postponed removal is carried out right behind it, only
+the live chunks 118, 185, 247 stay linked. -/
+def c08SysFailedSyncExample : List Step :=
+  [ .call (.append [(⟨1, 0⟩, [1]), (⟨1, 1⟩, [2]), (⟨1, 2⟩, [3])]),
+    .flush none, .workerIdle,
+    .call (.purge ⟨1, 1⟩),
+    .flush none,
+    .worker .ok, .worker .ok, .worker .ok, .worker .ok, .worker .ok, .worker .eio ]
+
+example :
+    (∀ st ∈ c08SysFailedSyncExample, st.journal = true) ∧
+    (RefLog.run {} (stepOps c08SysFailedSyncExample)).isSome = true ∧
+    (∀ op ∈ stepOps c08SysFailedSyncExample, op.WF ∧ op.small) ∧
+    ((Sys.fresh { maxRecords := 2 }).run c08SysFailedSyncExample).worker.postponed = [0, 51] ∧
+    ((Sys.fresh { maxRecords := 2 }).run c08SysFailedSyncExample).worker.lastSyncFailed = true ∧
+    ((Sys.fresh { maxRecords := 2 }).run c08SysFailedSyncExample).fs.linkedIds = [0, 51, 118, 185, 247] ∧
+    ((Sys.fresh { maxRecords := 2 }).run
+      (c08SysFailedSyncExample ++ [.flush (some 9), .workerIdle])).worker.pc = .idle ∧
+    ((Sys.fresh { maxRecords := 2 }).run
+      (c08SysFailedSyncExample ++ [.flush (some 9), .workerIdle])).worker.toRemove = [] ∧
+    ((Sys.fresh { maxRecords := 2 }).run
+      (c08SysFailedSyncExample ++ [.flush (some 9), .workerIdle])).worker.lastSyncFailed = false ∧
+    ((Sys.fresh { maxRecords := 2 }).run
+      (c08SysFailedSyncExample ++ [.flush (some 9), .workerIdle])).fs.linkedIds = [118, 185, 247] ∧
+    ((Sys.fresh { maxRecords := 2 }).run
+      (c08SysFailedSyncExample ++ [.flush (some 9), .workerIdle])).store.map
+        (fun s => (s.removed, s.closed.map Closed.id, s.openId)) = some ([], [118, 185], 247) := by
+  refine ⟨by decide +kernel, by decide +kernel, ?_, by decide +kernel, by decide +kernel, by decide +kernel,
+    by decide +kernel, by decide +kernel, by decide +kernel, by decide +kernel, by decide +kernel⟩
+  intro op hop
+  simp only [c08SysFailedSyncExample, stepOps, List.mem_cons, List.not_mem_nil, or_false] at hop
+  rcases hop with h | h <;> subst h <;>
+    simp [Op.WF, Op.small, LogId.WF, bytesWF, smallId, U64, U32]
 
 end RaftLog
